@@ -76,6 +76,11 @@ class LibMap:
                     return "%s = %s" % (em.paren(em.E(a0)), em.E(src))
                 return "(%s.has = 1, %s.value = %s)" % (em.paren(em.E(a0)), em.paren(em.E(a0)), em.E(src))
             return None
+        if ct0 == "struct vf_mt19937" and op == "()":
+            # the only random source of the xbt generator: assumed callee (contract: value in [0, 2^w-1])
+            em.note_proto("vf_mt19937_next", "unsigned long", ["struct vf_mt19937*"], "std::mt19937::operator()")
+            em.callees["vf_mt19937_next"] = "std::mersenne_twister_engine::operator()"
+            return "vf_mt19937_next(%s)" % em.addr_of(a0)
         if ct0.startswith("struct vf_fn"):
             if op == "()":
                 f = em.paren(em.E(a0))
@@ -291,6 +296,10 @@ class LibMap:
 
     # ------------------------------------------------------------------ free functions
     def free_call(self, em, n, name, args, fnt):
+        if name in ("min", "max") and not args and fnt and "mersenne_twister_engine<" in fnt:
+            m = re.search(r"mersenne_twister_engine<[^,]+,\s*(\d+)", fnt)
+            w = int(m.group(1))
+            return "%dUL" % ((1 << w) - 1 if name == "max" else 0)
         if name in ("min", "max") and len(args) == 2:
             ct = em.ctype(n)
             if is_scalar(ct):
